@@ -251,6 +251,7 @@ package file
 //@   ensures [failure-keeps-handler-registered] result != nil && h != nil ==> has(c.m, strings.ToUpper(h.path)) == old(has(c.m, strings.ToUpper(h.path)))
 //@   ensures [failure-keeps-a-complete-table] h != nil && old(has(c.m, strings.ToUpper(h.path))) && old(h.openType) == ForUpdate && !old(h.closed) ==> fs[h.path] == old(fs[h.path]) || fs[h.path] == old(fs[tempPathOf(h.path)])
 //@   modifies *
+//@   modifies fs
 
 //@ func (*Container).Close
 //@   property C11 C01
@@ -261,3 +262,4 @@ package file
 //@   ensures [closed-handler-forgotten] result == nil && h != nil ==> !has(c.m, strings.ToUpper(h.path))
 //@   ensures [existing-table-untouched] h != nil && h.openType != ForCreate ==> fs[h.path] == old(fs[h.path])
 //@   modifies *
+//@   modifies fs
